@@ -24,7 +24,8 @@ META = {
                    "(slot_tw_unvalidated_not_atomic_refuted).  Trusted: the hand transcription of server.py/mutable.py into "
                    "Model/Slot.v and Model/MutContainer.v (tied by the correspondence runs), POSIX file semantics of "
                    "pread/pwrite, timing_safe_compare = equality.  Out of the model: negative offsets/new_length (foolscap "
-                   "allows them; the code asserts), operators other than eq, I/O errors, os.listdir order on error paths."),
+                   "allows them; the code asserts), operators other than eq, I/O errors (an OSError raised by a request is judged by the "
+                   "oracle: partly applied = violation), os.listdir order on error paths."),
     "technique": "Coq proof over an executable byte-level model + differential run vs the real StorageServer + direct oracle",
     "design_ref": "8/C24",
     "trusted_base": ["harness/translate/mutconsts.py (constants, header format)", "Model/Slot.v, Model/MutContainer.v, Model/Lease.v transcriptions"],
